@@ -3,6 +3,7 @@
 //! `record` drives the real code and writes ndjson events for TLC trace validation.
 mod chunkid;
 mod common;
+mod estimate;
 mod latest;
 mod search;
 mod sim;
@@ -15,6 +16,7 @@ fn main() {
     let args = Args::parse();
     match args.module.as_str() {
         "sweep" => sweep::run(&args),
+        "estimate" => estimate::run(&args),
         "chunkid" => chunkid::run(&args),
         "search" => search::run(&args),
         "latest" => latest::run(&args),
